@@ -150,6 +150,7 @@ type leafCtx struct {
 	leanSelf     string            // Lean name of the definition being translated
 	needPrelude3 bool              // the definition uses Model/GoPrelude3.lean
 	opaque       map[string]string // parameters that are opaque foreign objects (leaf8.go: opaqueMethods) -> their type
+	sinks        map[string]string // ninth generation (leaf9.go): parameters that are sinks -> their type
 }
 
 func (c *leafCtx) fail(format string, a ...any) {
